@@ -35,6 +35,10 @@ CHECKS = {
    "Generated documents with identifying characters in link texts: the trailing footnote block must un-wrap to `[k]: target_k` for exactly the links with visible content (AST oracle), every link's last character is followed by its `[k]` on the document-order stream (raw-mode rendering for documents with tables), references are 1..n once each, rich annotations separate link text from references, nothing appears when disabled.",
    "Trusted: digit/punctuation link targets; marker parser skips closing markup and prefixes; deep-empty links are a known finding.",
    "property-based testing (proptest; reference numbering model + output parser)"),
+ "C09": ("exploration",
+   "Oracle DOM as reference model: the expected annotation vector of every text node is the concatenation over its ancestors (outermost first) of [Colour?, BgColour?, own annotation]; identifying characters make every output piece comparable with the vector of the node it came from, across wrapping, sub-renderers and table cells; pieces without text must carry an initial segment of an element chain; pieces joined equal the string output.",
+   "Trusted: the element->annotation table; Default ignored, Preformat checked for presence only; row-group colours are a known finding.",
+   "property-based testing (proptest) against a reference model derived from an independent oracle DOM"),
  "C10": ("exploration",
    "Stateful generation: a history of <=6 renders (route x width) is interpreted against one render tree built once and cloned per render; every result is compared with a fresh one-shot rendering (differential oracle), plus determinism and route/free-function agreement.",
    "Trusted: string_from_read as the reference route; identity colour map.",
@@ -47,6 +51,10 @@ CHECKS = {
    "Reference-model oracle for <pre>: tab expansion to 8-column stops, line-for-line reproduction when every line fits, per-source-line character conservation / contiguity / piece width otherwise, Preformat(false/true) tags in rich output. One identifying letter per source line makes loss, duplication, reordering and merging of lines countable.",
    "Trusted: the reference model; only line-trailing whitespace may differ; continuation tags of over-long lines containing whitespace are a known finding and not asserted.",
    "property-based testing (proptest) against a reference model of preformatted layout"),
+ "C14": ("exploration",
+   "Generated documents with unique ids on random elements: from the oracle DOM and the linearised element stream of the line output, every id with visible text has exactly one marker, ordered after all preceding text and before the element's own text within its scope (table cell or document), on the element's line when the element starts mid-line; string output identical with ids removed; 40% of cases at widths 1..8 to force hard wrapping.",
+   "Trusted: identifying characters; scope = innermost table cell; ids on elements without visible text are outside the claim; two placement classes are known findings.",
+   "property-based testing (proptest; event-stream oracle from an independent oracle DOM, plus a metamorphic id-removal relation)"),
  "C15": ("exploration",
    "Metamorphic relations between render(d,w,base) and render(d,w,base+o) for each of nine options (identity when the option does not apply; width bound beyond the prefix for max_wrap_width; right-trim equality for padding; U+0336 deletion for strikeout; no box characters and same text for no_table_borders/raw_mode; no [k] and same text for link_footnotes(false); same body and unbroken entries for no_link_wrapping; same text and only `*`/backquote added for do_decorate).",
    "Trusted: identifying characters and digit-only link targets separate text from markup; the prefix parser over-approximates; blank <pre> under padding is a known finding.",
